@@ -28,12 +28,12 @@ def build():
                          'client.py derives SEND_QUEUE_LOW_WATERMARK / SEND_QUEUE_HARD_MAX as the harness assumes')],
     bounded=[Bounded('C07/native/event_sequences_cross_check', 'replay/relay_native.py',
                      ['--len', '5', '--random', '50', '--only', C07_IDS], ['--len', '6', '--random', '300', '--thorough', '--only', C07_IDS],
-                     "every enabled sequence of <= 5 (quick) / 6 (thorough) events over {arrival, self-metric, connection made / lost / failed, transport paused / resumed, timer round}, each with and without a final orderly stop, plus seeded random sequences up to 14 events, on the real factories and protocols (pickle and line) with a task.Clock reactor: 32 (quick) / 78 (thorough) configurations of MAX_QUEUE_SIZE in {1,2,3}, hard-limit and low-watermark fractions, MAX_DATAPOINTS_PER_MESSAGE in {1,2,500}, flow control, dynamic router, retry budget",
+                     "every enabled sequence of <= 5 (quick) / 6 (thorough) events over {arrival, self-metric, connection made / lost / failed, transport paused / resumed, timer round}, each with and without a final orderly stop, plus seeded random sequences up to 14 events, on the real factories and protocols (pickle and line) with a task.Clock reactor: 35 (quick) / 90 (thorough) configurations of MAX_QUEUE_SIZE in {1,2,3}, hard-limit and low-watermark fractions, MAX_DATAPOINTS_PER_MESSAGE in {1,2,500}, flow control, dynamic router, retry budget, connection-quality resets (USE_RATIO_RESET with a monitor that always asks for a reset)",
                      "the history statement (accepted == written ++ queue over whole event sequences, delivery at quiescence, orderly stop) is an induction over events that is a meta-step of the per-operation contracts, not a discharged obligation; this runs it on CPython/Twisted for every short history")],
     trusted_base=['A-ENGINE', 'A-SMT', 'A-TWISTED-DEFER', 'A-LIB(deque/list models)'],
     assumptions=[
       "A-TWISTED-DEFER: Deferred.callback runs the registered callbacks synchronously once, raises AlreadyCalledError when already called; callLater returns a DelayedCall that is active until it fires",
       "everything in carbon.client runs on the reactor thread (single-threaded): each method is verified from an arbitrary state; the history statement is the induction over events of the per-operation view equations (meta-step)",
       "state.events.metricGenerated (re-injection) does not enqueue into the queue being drained: the router no longer returns the removed destination (C05/C16 'only configured destinations'); DESTINATION_POOL_REPLICAS is off",
-      "USE_RATIO_RESET is off (connection-quality resets are not under contract); SSL / connector set-up, CarbonClientManager and FakeClientFactory are not under contract",
+      "connection-quality resets (USE_RATIO_RESET): the monitor's verdict is an arbitrary boolean, resetConnectionForQualityReasons and the protocol's disconnect run under contract inside sendQueued; SSL / connector set-up, CarbonClientManager and FakeClientFactory are not under contract",
     ])
